@@ -100,6 +100,7 @@ class C13(Prop):
             "extra": st.lists(st.tuples(st.integers(0, 60), st.sampled_from(["EDIF.identifier", "K"]),
                                         st.integers(0, 7)).map(list), max_size=12),
             "queries": st.lists(query, min_size=6, max_size=6),
+            "via_clone": st.integers(0, 4).map(lambda v: v == 0),
             "edits": st.one_of(st.just([]), st.lists(st.fixed_dictionaries({
                 "k": st.sampled_from(["del_name", "name_none", "rename", "del_id", "pop_id", "pop_name",
                                       "set_id"]),
@@ -114,6 +115,13 @@ class C13(Prop):
         sdn.namespace_manager.default = case.get("policy", "DEFAULT")
         B = gen_ir.build(case["design"])
         nl = B.netlist
+        if case.get("via_clone"):
+            # the queries run on a clone (its name index is built wholesale, not edit by edit)
+            try:
+                nl = nl.clone()
+                res.label("queries-on-a-clone")
+            except Exception:  # noqa (C07's business)
+                nl = B.netlist
         els = [nl] + [x for L in nl.libraries for x in [L] + [y for D in L.definitions for y in
                       [D] + list(D.ports) + list(D.cables) + list(D.children)]]
         for i, key, v in case.get("extra", []):
